@@ -19,14 +19,14 @@ one() {
     if [ $built = 1 ]; then
       tests=$(cd $W && ctest --test-dir _build -j4 --timeout 900 2>&1 | grep -o "[0-9]* tests failed" | grep -o "^[0-9]*")
       if [ -f seeded/$s/run.sh ]; then
-        ( cd seeded/$s && timeout 900 bash ./run.sh $W >/tmp/confirm-$s.mut.log 2>&1 ); demo_mut=$?
-        ( cd seeded/$s && timeout 900 bash ./run.sh $PRI >/tmp/confirm-$s.pri.log 2>&1 ); demo_pri=$?
+        ( cd seeded/$s && env -i PATH="$PATH" HOME="$HOME" timeout 900 bash ./run.sh $W >/tmp/confirm-$s.mut.log 2>&1 ); demo_mut=$?
+        ( cd seeded/$s && env -i PATH="$PATH" HOME="$HOME" timeout 900 bash ./run.sh $PRI >/tmp/confirm-$s.pri.log 2>&1 ); demo_pri=$?
       fi
     fi
   fi
   printf '{"seed":"%s","applies_to_head":%s,"builds":%s,"tests_failed_with_change":%s,"demo_exit_with_change":%s,"demo_exit_pristine":%s,"repo_head":"%s"}\n' \
      $s $applies $built "${tests:--1}" $demo_mut $demo_pri $(git -C /repo log --format=%h -1) > seeded/$s/confirm.json
-  git -C /repo worktree remove --force $W 2>/dev/null; rm -rf $W /tmp/confirm-$s.*.log
+  [ "$demo_pri" != 0 ] && cp /tmp/confirm-$s.pri.log /tmp/keep-$s.pri.log; git -C /repo worktree remove --force $W 2>/dev/null; rm -rf $W /tmp/confirm-$s.*.log
   cat seeded/$s/confirm.json
 }
 export -f one
